@@ -26,7 +26,7 @@ PairSet(js) == {<<x[1], x[2]>> : x \in SeqToSet(js)}
 ProjOf(j) == [dirs  |-> SeqToSet(j.dirs),
               files |-> {[name |-> f.name, py |-> f.py] : f \in SeqToSet(j.files)},
               stmts |-> {[file |-> s.file, form |-> s.form, level |-> s.level, module |-> s.module,
-                          names |-> s.names, pos |-> s.pos] : s \in SeqToSet(j.stmts)}]
+                          names |-> s.names, pos |-> s.pos, lay |-> s.lay] : s \in SeqToSet(j.stmts)}]
 
 ProjStep ==
     /\ IsEvent("proj")
